@@ -4,13 +4,20 @@
    the configuration switch mgmt.allow_localhop. Every theorem holds for all of them.
    [run] is one iteration of Thread.Run on a received Interest; [Panic] is any unchecked index / nil dereference / failed
    type assertion of the Go handlers. Status codes, prefixes, verbs, defaults and bounds are the translated GenConsts.v. *)
-From Mgmt Require Import Model Spec Tables Proofs Effects.
+From Mgmt Require Import Wire Model Spec Tables Proofs Effects.
 Open Scope N_scope.
 
 (* ---- translated data agrees with what the model dispatches on; the bounds it relies on ---- *)
 Theorem consts_match : consts_match_model = true /\ k_missing_status = [].
 Proof. exact (conj consts_match_model_ok eq_refl). Qed.
 Print Assumptions consts_match.
+
+(* the TLV-TYPE numbers of ControlParameters / ControlResponse: the ones the repository's codec writes (observed on this run)
+   and the ones the harness's independent codec uses both equal the protocol's table (Wire.v, written by hand) *)
+Theorem mgmt_wire_numbers_match_spec :
+  wire_table_eqb k_wire_observed wire_spec = true /\ wire_table_eqb k_wire_harness wire_spec = true.
+Proof. exact (conj eq_refl eq_refl). Qed.
+Print Assumptions mgmt_wire_numbers_match_spec.
 
 Theorem guards_in_source :
   (k_ContentStoreModule_local_only = true /\ k_FaceModule_local_only = true /\ k_FIBModule_local_only = true /\
